@@ -7,7 +7,7 @@
 use crate::replay::Tally;
 use crate::util::*;
 use precis_core::Codepoints;
-use precis_tools::{BidiClassGen, GeneralCategoryGen, RustCodeGen, UcdFileGen, UcdTableGen, UnassignedTableGen, ViramaTableGen, WidthMappingTableGen};
+use precis_tools::{BidiClassGen, GeneralCategoryGen, RustCodeGen, UcdFileGen, UcdTableGen, UnassignedTableGen, UnicodeGen, ViramaTableGen, WidthMappingTableGen};
 use serde_json::{json, Value};
 use std::io::Write;
 use std::path::{Path, PathBuf};
@@ -208,6 +208,112 @@ pub fn replay_gen(doc: &Value, t: &mut Tally) {
         }
     }
     if doc["lines"].as_array().unwrap().iter().any(|l| l["kind"] == "first") {
+        t.nontrivial += 1;
+    }
+}
+
+
+/// malformed First/Last structure: the real folding must reject with the error the model names
+pub fn replay_generr(doc: &Value, t: &mut Tally) {
+    let dir = scratch();
+    let want = match doc["err"].as_str().unwrap_or("") {
+        "expected end of range" => "Expected end range",
+        "end of range without start" => "Found end range without starting",
+        "start greater than end" => "is minor than",
+        other => tool_error(&format!("unknown model error {}", other)),
+    };
+    for base in [0u32, 0xFFFA] {
+        let mut text = String::new();
+        for l in doc["lines"].as_array().unwrap() {
+            let mcp = l["cp"].as_u64().unwrap() as u32;
+            text.push_str(&render_line(base + mcp, l["kind"].as_str().unwrap(), l["v"].as_u64().unwrap(), base, mcp));
+            text.push('\n');
+        }
+        let mut f = std::fs::File::create(dir.join("UnicodeData.txt")).unwrap();
+        f.write_all(text.as_bytes()).unwrap();
+        drop(f);
+        t.executions += 1;
+        let res = std::panic::catch_unwind(|| run_generators(&dir));
+        let got = match res {
+            Err(_) => "panic".to_string(),
+            Ok(Ok(_)) => "accepted".to_string(),
+            Ok(Err(e)) => e,
+        };
+        if !got.contains(want) {
+            t.mismatch(json!({"k": "generr", "base": base, "lines": doc["lines"], "expected_error": want, "actual": got}));
+        }
+    }
+    t.nontrivial += 1;
+}
+
+/// property-file generators (UnicodeGen<Script> + UcdTableGen): lines in any order
+pub fn replay_prop(doc: &Value, t: &mut Tally) {
+    let dir = scratch();
+    let m = doc["m"].as_u64().unwrap() as u32;
+    for base in [0x0370u32, 0xD7FD, 0xFFFC, 0x10FF00] {
+        let mut text = String::from("# Scripts-like model file\n\n");
+        for l in doc["lines"].as_array().unwrap() {
+            let lo = base + l["lo"].as_u64().unwrap() as u32;
+            let hi = base + l["hi"].as_u64().unwrap() as u32;
+            let v = l["v"].as_str().unwrap();
+            if lo == hi {
+                text.push_str(&format!("{:04X}          ; {} # Lo       MODEL\n", lo, v));
+            } else {
+                text.push_str(&format!("{:04X}..{:04X}    ; {} # Lo  [{}] MODEL..MODEL\n", lo, hi, v, hi - lo + 1));
+            }
+        }
+        text.push_str("\n# EOF\n");
+        let mut f = std::fs::File::create(dir.join("Scripts.txt")).unwrap();
+        f.write_all(text.as_bytes()).unwrap();
+        drop(f);
+        t.executions += 1;
+        let out = dir.join("scripts.rs");
+        let res = std::panic::catch_unwind(|| -> Result<String, String> {
+            let mut gen = RustCodeGen::new(&out).map_err(|e| e.to_string())?;
+            let mut ucd_gen = UcdFileGen::new(&dir);
+            let mut sg: UnicodeGen<ucd_parse::Script> = UnicodeGen::new();
+            sg.add(Box::new(UcdTableGen::new("Greek", "T_GC")));
+            sg.add(Box::new(UcdTableGen::new("Hebrew", "T_VIR")));
+            ucd_gen.add(Box::new(sg));
+            gen.add(Box::new(ucd_gen));
+            gen.generate_code().map_err(|e| e.to_string())?;
+            drop(gen);
+            std::fs::read_to_string(&out).map_err(|e| e.to_string())
+        });
+        let src = match res {
+            Err(_) => {
+                t.mismatch(json!({"k": "prop", "base": base, "lines": doc["lines"], "actual": "panic in the generators"}));
+                continue;
+            }
+            Ok(Err(e)) => {
+                t.mismatch(json!({"k": "prop", "base": base, "lines": doc["lines"], "actual": format!("generator error: {}", e)}));
+                continue;
+            }
+            Ok(Ok(s)) => s,
+        };
+        // the two tables were emitted under the names the shared parser knows (T_GC = Greek, T_VIR = Hebrew)
+        let tb = parse_tables(&src);
+        let mut diffs: Vec<Value> = Vec::new();
+        for mcp in 0..m {
+            let cp = base + mcp;
+            let g = std::panic::catch_unwind(|| (in_table(cp, &tb.gc), in_table(cp, &tb.vir)));
+            match g {
+                Err(_) => diffs.push(json!({"cp": mcp, "table": "search panicked"})),
+                Ok((greek, hebrew)) => {
+                    if json!(greek) != *expected_at(&doc["greek"], mcp) {
+                        diffs.push(json!({"cp": mcp, "table": "Greek", "actual": greek}));
+                    }
+                    if json!(hebrew) != *expected_at(&doc["hebrew"], mcp) {
+                        diffs.push(json!({"cp": mcp, "table": "Hebrew", "actual": hebrew}));
+                    }
+                }
+            }
+        }
+        if !diffs.is_empty() {
+            t.mismatch(json!({"k": "prop", "base": base, "lines": doc["lines"], "diffs": diffs}));
+        }
+    }
+    if doc["lines"].as_array().unwrap().len() > 1 {
         t.nontrivial += 1;
     }
 }
